@@ -163,6 +163,7 @@ func runC01(w *W) {
 	w.genBoundaryPairs(judge)
 	w.genFillBlock(fillStep(w), judge)
 	w.genBufferFill(judge)
+	w.genFillThenBlank(judge)
 	w.genCarryThenNothing(judge)
 	w.genDenseSizes(judge)
 	w.genBackslashRuns(judge)
